@@ -32,7 +32,7 @@ PROPS = {
             "mc": ["MC_Core2", "MC_Prio"]},
     "C06": {"families": ["vacancy", "faults", "stop"],
             "nontrivial_rule": "the record becomes vacant (delete, expiry) while another instance runs",
-            "mc": ["MC_Vacancy", "MC_Faults"]},
+            "mc": ["MC_Vacancy", "MC_VacancyFault", "MC_Faults"]},
     "C07": {"families": ["conform", "witness", "regress", "core", "stop"],
             "nontrivial_rule": "a term lasting at least two successful refreshes with a second instance or a stop in the trace",
             "mc": ["MC_Core2"]},
